@@ -683,7 +683,7 @@ void kll_sketch<T, C, A>::compress_while_updating(void) {
     kll_helper::randomly_halve_up(items_, adj_beg, adj_pop);
   } else {
     kll_helper::randomly_halve_down(items_, adj_beg, adj_pop);
-    kll_helper::merge_sorted_arrays<T, C>(items_, adj_beg, half_adj_pop, raw_lim, pop_above, adj_beg + half_adj_pop);
+    kll_helper::merge_sorted_arrays<T, C>(items_, adj_beg, half_adj_pop, raw_lim, pop_above, adj_beg + half_adj_pop, comparator_);
   }
   levels_[level + 1] -= half_adj_pop; // adjust boundaries of the level above
   if (odd_pop) {
@@ -805,7 +805,7 @@ void kll_sketch<T, C, A>::merge_higher_levels(O&& other, uint64_t final_n) {
   populate_work_arrays(std::forward<O>(other), workbuf.get(), worklevels.data(), provisional_num_levels);
 
   const kll_helper::compress_result result = kll_helper::general_compress<T, C>(k_, m_, provisional_num_levels, workbuf.get(),
-      worklevels.data(), outlevels.data(), is_level_zero_sorted_);
+      worklevels.data(), outlevels.data(), is_level_zero_sorted_, comparator_);
 
   // ub can sometimes be much bigger
   if (result.final_num_levels > ub) throw std::logic_error("merge error");
@@ -852,7 +852,7 @@ void kll_sketch<T, C, A>::populate_work_arrays(FwdSk&& other, T* workbuf, uint32
         new (&workbuf[j]) T(conditional_forward<FwdSk>(other.items_[i]));
       }
     } else if ((self_pop > 0) && (other_pop > 0)) {
-      kll_helper::merge_sorted_arrays<T, C>(items_, levels_[lvl], self_pop, other.items_, other.levels_[lvl], other_pop, workbuf, worklevels[lvl]);
+      kll_helper::merge_sorted_arrays<T, C>(items_, levels_[lvl], self_pop, other.items_, other.levels_[lvl], other_pop, workbuf, worklevels[lvl], comparator_);
     }
   }
 }
